@@ -210,11 +210,9 @@ harnesses! {
         finish(&att);
     }
     #[unwind(19)] fn c16_u8_00() { plain::<u8>(0, 0) }
-    #[unwind(19)] fn c16_string_00() { plain::<String>(0, 0) }
     #[unwind(19)] fn c16_vec_u16_00() { plain::<Vec<u16>>(0, 0) }
     #[unwind(19)] fn c16_nested_struct_00() { plain::<(E3, Option<(u8, u16)>, [u8; 2])>(0, 0) }
     #[unwind(19)] fn c16_opt_sender_10() { plain::<Option<IpcSender<u8>>>(1, 0) }
-    #[unwind(19)] fn c16_vec_sender_20() { plain::<Vec<IpcSender<u8>>>(2, 0) }
     #[unwind(19)] fn c16_u32pair_00() { plain::<(u32, u32)>(0, 0) }
     #[unwind(19)] fn c16_opt_u8_00() { plain::<Option<u8>>(0, 0) }
     #[unwind(19)] fn c16_enum3_00() { plain::<E3>(0, 0) }
